@@ -417,8 +417,8 @@ def rewrite_calls(text, repl):
             old = old[len("libcperciva_"):]   # sources use the unprefixed name (the header #defines the prefix)
         out = []
         for line in text.split("\n"):
-            if re.match(r"^%s\(" % re.escape(old), line):
-                out.append(line)
+            if re.match(r"^%s\(" % re.escape(old), line) or line.startswith("static "):
+                out.append(line)   # the definition itself / a file-scope prototype: left alone
             else:
                 out.append(re.sub(r"(?<![A-Za-z0-9_])%s(\s*)\(" % re.escape(old), new + r"\1(", line))
         text = "\n".join(out)
